@@ -189,6 +189,18 @@ structure ConvSpec where
   typeSpecial : Bool
 deriving Repr, DecidableEq
 
+/-- One `for x in symbol_table.<coll>:` loop of a `_verify_…_collisions` function of `<target>/lib/_generate_types.py`
+that feeds the function's dictionary with `<fn>(Identifier(f"<pre>{x.name}<post>"))` (`pre = post = []`: `<fn>(x.name)`),
+optionally wrapped as `Identifier(f"<opre>{<fn>(…)}<opost>")`. -/
+structure CheckLoop where
+  coll : String
+  fn : String
+  pre : Text
+  post : Text
+  opre : Text
+  opost : Text
+deriving Repr, DecidableEq
+
 /-- The callees a `ConvSpec` may name. -/
 def callee (name : String) (t : Text) : R :=
   if name = "lower_snake_case" then lowerSnake t
